@@ -191,6 +191,22 @@ def check_attribute_kinds(t, shape, m):
         judge(t, "%s.find_by_attr(value=<the same nan object>)" % modname, ("ok", None),
               outcome(mod.find_by_attr, nodes[0], nan, name="score"), idm, {"shape": shape, "node_class": "AnyNode with NaN attribute"})
         t.c["attribute_kind_queries"] += 2
+    # "equals value" is Python's ==, across kinds too: True == 1 == 1.0, False == 0, "1" != 1, (1,) == (1,), [] == []
+    pool = [True, 1, 1.0, False, 0, "1", (1,), None, [], 0.0]
+    vals = [pool[(i * 3 + len(shape)) % len(pool)] for i in range(m.n)]
+    nodes = [anytree.AnyNode(flag=vals[i]) for i in range(m.n)]
+    for i in range(m.n):
+        if m.par[i] is not None:
+            nodes[i].parent = nodes[m.par[i]]
+    idm = tree.IdMap(nodes)
+    for value in pool:
+        exp = [v for v in range(m.n) if vals[v] == value]
+        for mod, modname in ((search, "search"), (cachedsearch, "cachedsearch")):
+            if modname == "cachedsearch" and isinstance(value, list):
+                continue  # (an unhashable search value cannot be a cache key)
+            judge(t, "%s.findall_by_attr(value=%r) over values of mixed kinds" % (modname, value), ("ok", exp),
+                  outcome(mod.findall_by_attr, nodes[0], value, name="flag"), idm, {"shape": shape, "node_class": "AnyNode with flags %r" % (vals,)})
+            t.c["attribute_kind_queries"] += 1
     # stateful predicates: filter_ / stop are asked in ONE pre-order pass (a "first of every kind" filter with a seen-set)
     nodes = [anytree.AnyNode(kind="k%d" % (i % 2)) for i in range(m.n)]
     for i in range(m.n):
